@@ -5,10 +5,10 @@ package locRIB
 // Engine E5. The reference comparator zvSelRef (zz_verif_c02c03_dom_test.go)
 // is written from the RFC text. Enumerated:
 //
-//  1. every ordered pair (a,b) of the 3072-path BGP domain D: whenever the
+//  1. every ordered pair (a,b) of the 6144-path BGP domain D: whenever the
 //     reference separates a and b, sign(a.Select(b)) must be the reference's;
-//  2. every ordered pair of D on the real LocRIB (AddPath a, then b): BestPath
-//     must be the reference's winner;
+//  2. every ordered pair of D (quick: of the half with next hop .1) on the
+//     real LocRIB (AddPath a, then b): BestPath must be the reference's winner;
 //  3. every 3-subset of a tie-prone sub-domain x every insertion order on the
 //     real LocRIB: BestPath must be a reference-maximal candidate.
 //
@@ -148,7 +148,7 @@ type zvC03Throttle map[string]int
 func (t zvC03Throttle) ok(k string) bool { t[k]++; return t[k] <= 8 }
 
 var zvC03Required = []string{"step_local_pref", "step_as_path", "step_origin", "step_med", "step_ebgp", "step_identifier", "step_cluster_list", "step_peer_address",
-	"identifier_decided_by_originator_id", "cluster_list_absent_vs_nonempty", "reference_silent_pairs", "locrib_pairs_decided_after_ebgp_step", "locrib_triples_decided_after_ebgp_step"}
+	"identifier_decided_by_originator_id", "cluster_list_absent_vs_nonempty", "med_decides_between_different_neighbour_as", "reference_silent_pairs", "locrib_pairs_decided_after_ebgp_step", "locrib_triples_decided_after_ebgp_step"}
 
 func zvC03Late(step string) bool {
 	return step == "identifier" || step == "cluster_list" || step == "peer_address"
@@ -158,8 +158,8 @@ func TestVerifC03(t *testing.T) {
 	r := vh.Start(t, "C03")
 	defer r.Finish()
 	zvSelQuiet()
-	r.Rule("every ordered pair (a,b) of D = LOCAL_PREF{100,200} x AS_PATH len{1,2} x ORIGIN{0,1} x MED{0,10} x eBGP{f,t} x BGP-ID{1,2} x ORIGINATOR_ID{absent,1,3} x CLUSTER_LIST{absent,empty,1,2 entries} " +
-		"x peer{.1,.2} x next hop{.1,.2} (3072 paths): a.Select(b) against the RFC reference comparator, and LocRIB.AddPath(a), AddPath(b) -> BestPath; " +
+	r.Rule("every ordered pair (a,b) of D = LOCAL_PREF{100,200} x AS_PATH len{1,2} x neighbour AS{65000,65100} x ORIGIN{0,1} x MED{0,10} x eBGP{f,t} x BGP-ID{1,2} x ORIGINATOR_ID{absent,1,3} x CLUSTER_LIST{absent,empty,1,2 entries} " +
+		"x peer{.1,.2} x next hop{.1,.2} (6144 paths): a.Select(b) against the RFC reference comparator; LocRIB.AddPath(a), AddPath(b) -> BestPath for every ordered pair of D (thorough) / of the 3072 paths with next hop .1 (quick); " +
 		"every 3-subset of the tie-prone sub-domain x 6 insertion orders on the LocRIB; evaluations = Select pairs + LocRIB histories; non-trivial = those on which the reference separates the candidates")
 	r.Require(zvC03Required...)
 	if r.IsReplay() {
@@ -187,6 +187,7 @@ func TestVerifC03(t *testing.T) {
 	var evals, nontriv, notItemised int64
 	t0, c0 := time.Now(), zvSelCPU()
 	order2 := []int{0, 1}
+	thorough := r.Thorough()
 	lastStep, lastKey := "", ""
 	for i := 0; i < n; i++ {
 		if !r.Mine(i) {
@@ -200,12 +201,12 @@ func TestVerifC03(t *testing.T) {
 		for j := 0; j < n; j++ {
 			b := ds[j]
 			want, step := zvSelRef(a, b)
-			evals += 2
+			evals++
 			if want == 0 {
 				cnt["reference_silent_pairs"]++
 				continue
 			}
-			nontriv += 2
+			nontriv++
 			if step != lastStep {
 				lastStep, lastKey = step, "step_"+step
 			}
@@ -216,8 +217,8 @@ func TestVerifC03(t *testing.T) {
 			if step == "cluster_list" && (a.CL < 0 || b.CL < 0) {
 				cnt["cluster_list_absent_vs_nonempty"]++
 			}
-			if zvC03Late(step) {
-				cnt["locrib_pairs_decided_after_ebgp_step"]++
+			if step == "med" && a.NAS != b.NAS {
+				cnt["med_decides_between_different_neighbour_as"]++
 			}
 			// clause 1: Select
 			var got int
@@ -232,7 +233,16 @@ func TestVerifC03(t *testing.T) {
 					notItemised++
 				}
 			}
-			// clause 2: LocRIB, a first then b (the pair (b,a) supplies the other order)
+			// clause 2: LocRIB, a first then b (the pair (b,a) supplies the other order);
+			// quick tier: only the half of D with next hop .1
+			if !thorough && (a.NH != 1 || b.NH != 1) {
+				continue
+			}
+			evals++
+			nontriv++
+			if zvC03Late(step) {
+				cnt["locrib_pairs_decided_after_ebgp_step"]++
+			}
 			pair := []zvSelPD{a, b}
 			pp := []*route.Path{ps[i], ps2[j]}
 			rib := New("zvC03")
